@@ -15,6 +15,8 @@ structure St where
   /-- last printed value of each state token -/
   last : List (String × String) := []
   orc : Orc := {}
+  /-- connections whose writer the harness has killed (op `killwriter`): what the model writes to them is not observable -/
+  deaf : List Nat := []
   deriving Inhabited
 
 def lastGet (l : List (String × String)) (k : String) : Option String := (l.find? (·.1 = k)).map (·.2)
@@ -30,7 +32,7 @@ def observe (st : St) (w : World) (status : String) : St × String :=
     let it := w.log.filterMap fun x => match x with
       | .write j m => if j = i then some (msgStr m) else none
       | _ => none
-    if it.isEmpty then none else some s!"w{i}={"|".intercalate it}"
+    if it.isEmpty || st.deaf.contains i then none else some s!"w{i}={"|".intercalate it}"
   let qs := (List.range n).filterMap fun i =>
     let it := w.log.filterMap fun x => match x with
       | .enq j a r => if j = i then some (actStr w a r) else none
@@ -225,6 +227,10 @@ def runModel (st : St) (op impl : List String) : Option (St × String) :=
         let w : World := p.pending.foldl (fun w j => w.enq j p.act) w
         some (observe st w "ok")
     | _, _ => none
+  | ["killwriter", i] =>
+    match i.toNat? with
+    | some i => if (w.client? i).isSome then some ({ st with deaf := st.deaf ++ [i] }, "ok") else some (st, "noclient")
+    | none => none
   | ["fault", b] => some ({ st with w := { w with storeFault := b = "1" } }, "ok")
   | ["probe"] => some (st, probeStr w)
   | ["fix", flags] =>
